@@ -1,6 +1,7 @@
 """Driver configuration for C04."""
 
 CFG = dict(
+    shrink_fields=['perfs'],
     tests=["TestC04"],
     n_quick=150, n_thorough=1500, shards_thorough=6,
     rule="corpus + 21 boundary families (over-limit first/middle/last/all, gas == limit / limit+1, repeated upkeep ids, "
